@@ -207,3 +207,38 @@ def bounded(params):
     return {"evaluations": evals, "distinct_nontrivial": len(distinct), "failures": failures,
             "rule": "2-4 concurrent evaluate()/make_statistic() calls (distinct and colliding names) on one real aggregator under a deterministic scheduler with scheduling points at every lock acquisition and file-helper call; seeded random schedules (distinct = distinct interleavings seen); plus real forked processes on the real locks",
             "bound": "4 name configurations x 30 schedules (quick) / 400 (thorough); 2 forked runs"}
+
+
+def lifetime(params):
+    """an aggregator object that goes away (rebound variable + garbage collection, pickled copy) must not delete the buffer of the live session"""
+    import gc, pickle, tempfile, os
+    from .c17 import _evaluator
+    from .util import serial_pools
+    serial_pools()
+    from panoptica import Panoptica_Aggregator
+    bad = []
+    a = np.array([0, 1, 1, 2, 2, 0], np.uint8)
+    with tempfile.TemporaryDirectory() as d:
+        out = os.path.join(d, "o.tsv")
+        ev = _evaluator()
+        agg = Panoptica_Aggregator(ev, out)
+        agg.evaluate(a.copy(), a.copy(), "s0")
+        agg2 = Panoptica_Aggregator(ev, out)   # a newer session object on the same file
+        agg = None
+        gc.collect()
+        try:
+            agg2.evaluate(a.copy(), a.copy(), "s1")
+        except Exception as e:
+            bad.append(f"after an older aggregator object was released, evaluate raised {type(e).__name__}: {e}"[:200])
+        try:
+            cp = pickle.loads(pickle.dumps(agg2))  # what a pool worker receives with the bound method
+            del cp
+            gc.collect()
+            agg2.evaluate(a.copy(), a.copy(), "s2")
+        except Exception as e:
+            bad.append(f"after a pickled copy was collected, evaluate raised {type(e).__name__}: {e}"[:200])
+        from .c17 import read_rows
+        names = [r[0] for r in read_rows(out)[1:]]
+        if sorted(names) != ["s0", "s1", "s2"]:
+            bad.append(f"rows {names}, expected s0, s1, s2 once each")
+    return {"violated": bool(bad), "problems": bad[:3]}
